@@ -412,8 +412,10 @@ static void data_print_blocks(FILE *fp,
                               const double scale,
                               const double binval)
 {
-    uint64_t nfilled = (uint64_t)(binval / scale);
-    const double rem = binval / scale - (double)nfilled;
+    /* All bins empty (e.g. zero durations only) gives scale zero: no blocks */
+    const double nblocks = (scale > 0.0) ? binval / scale : 0.0;
+    uint64_t nfilled = (uint64_t)nblocks;
+    const double rem = nblocks - (double)nfilled;
 
     while (nfilled-- > 0) {
         const int r = fputc(symbol_full, fp);
